@@ -315,6 +315,9 @@ func runC10(c *Ctx) {
 	}
 	rec("")
 	c.St.Exhaustive = append(c.St.Exhaustive, fmt.Sprintf("all %d strings of length 1..%d over {. # 0 1 a} on a fixed object and list", count, maxLen))
+	c.omoList("C10")
+	c.omoObj("C10")
+	c.derivedCorners("C10")
 	// long lists: indices around every power of two up to 2^16 (width slips in index parsing, size thresholds)
 	m.Case("long-lists")
 	long := m.NewListOf(gvInt(7), 66000)
@@ -485,6 +488,9 @@ func runC11(c *Ctx) {
 			c.St.Eval(fmt.Sprintf("%d:%d:%s", i, s, path), strings.Count(path, ".")+strings.Count(path, "#") >= 2)
 		}
 	}
+	c.derivedCorners("C11")
+	c.sharedBoxes()
+	c.growShrink()
 	// writes and unsets at indices around powers of two (padding, growth steps, width slips)
 	m.Case("long-writes")
 	for k := uint(4); k <= 12; k++ {
